@@ -29,6 +29,7 @@ def main():
     round2 = "--round2" in args
     round3 = "--round3" in args
     round4 = "--round4" in args
+    round5 = "--round5" in args
     only = [a for a in args if not a.startswith("--")]
     if not os.path.exists(WT):
         r = sh("git worktree add -q --detach %s HEAD" % WT, cwd=REPO)
@@ -38,13 +39,13 @@ def main():
         pid = "C%02d" % i
         if only and pid not in only:
             continue
-        src = ("/tmp/seed4-%s" if round4 else "/tmp/seed3-%s" if round3 else "/tmp/seed2-%s" if round2 else "/tmp/seed-%s") % pid
+        src = ("/tmp/seed5-%s" if round5 else "/tmp/seed4-%s" if round4 else "/tmp/seed3-%s" if round3 else "/tmp/seed2-%s" if round2 else "/tmp/seed-%s") % pid
         if not os.path.isdir(src):
             continue
         for n in (1, 2):
             patch = os.path.join(src, "patch%d.diff" % n)
             demo = os.path.join(src, "demo%d.rs" % n)
-            key = "%s-%d" % (pid, n + (6 if round4 else 4 if round3 else 2 if round2 else 0))
+            key = "%s-%d" % (pid, n + (8 if round5 else 6 if round4 else 4 if round3 else 2 if round2 else 0))
             if not os.path.exists(patch):
                 results[key] = {"status": "no patch"}
                 continue
@@ -56,7 +57,7 @@ def main():
                 results[key] = entry
                 print(key, entry["status"])
                 continue
-            demo_name = "seeded_demo_%s_%d" % (pid.lower(), n + (6 if round4 else 4 if round3 else 2 if round2 else 0))
+            demo_name = "seeded_demo_%s_%d" % (pid.lower(), n + (8 if round5 else 6 if round4 else 4 if round3 else 2 if round2 else 0))
             have_demo = os.path.exists(demo)
             # 1. demo on unchanged code
             if have_demo:
@@ -97,7 +98,7 @@ def main():
                 readme = os.path.join(src, "README.md")
                 if os.path.exists(readme):
                     shutil.copy(readme, os.path.join(dst, "AUTHOR_README.md"))
-                json.dump({"property": pid, "variant": n + (6 if round4 else 4 if round3 else 2 if round2 else 0), "confirmation": entry,
+                json.dump({"property": pid, "variant": n + (8 if round5 else 6 if round4 else 4 if round3 else 2 if round2 else 0), "confirmation": entry,
                            "ran": ["git apply patch.diff (scratch worktree /tmp/wt-verify of /repo HEAD)",
                                    "cargo test --workspace --no-fail-fast --offline  (with the patch: all pass)",
                                    "cargo test --offline -p microscpi --test <demo>  (fails with the patch, passes without)"]},
